@@ -90,7 +90,85 @@ def _build():
         FAMILY[name] = dict(kind="payloadSink", inT=iname, outT=iname, created=[], params=["path"])
 
 
+def _build_bare():
+    """One component of every kind WITHOUT a docstring of its own (user classes often have none)."""
+    g = globals()
+
+    class Bare_Op(DataOperation):
+        @classmethod
+        def input_data_type(cls):
+            return TData
+
+        @classmethod
+        def output_data_type(cls):
+            return TData
+
+        def _process_logic(self, data, a):
+            return TData(["bare", data.data, a])
+
+    class Bare_Probe(DataProbe):
+        @classmethod
+        def input_data_type(cls):
+            return TData
+
+        def _process_logic(self, data):
+            return ["bareprobe", data.data]
+
+    class Bare_Source(DataSource):
+        @classmethod
+        def _get_data(cls, v="d"):
+            return TData(["baresrc", v])
+
+        @classmethod
+        def output_data_type(cls):
+            return TData
+
+    class Bare_Sink(DataSink):
+        @classmethod
+        def _send_data(cls, data, path="/dev/null"):
+            return None
+
+        @classmethod
+        def input_data_type(cls):
+            return TData
+
+    class Bare_PSource(PayloadSource):
+        @classmethod
+        def _get_payload(cls, v="d"):
+            return Payload(TData(["barepsrc", v]), ContextType({"pk16": v}))
+
+        @classmethod
+        def output_data_type(cls):
+            return TData
+
+        @classmethod
+        def _injected_context_keys(cls):
+            return ["pk16"]
+
+    class Bare_PSink(PayloadSink):
+        @classmethod
+        def _send_payload(cls, payload, path="/dev/null"):
+            return None
+
+        @classmethod
+        def input_data_type(cls):
+            return TData
+
+    for cls, desc in ((Bare_Op, dict(kind="operation", inT="TData", outT="TData", created=[], params=["a"])),
+                      (Bare_Probe, dict(kind="probe", inT="TData", outT=None, created=[], params=[])),
+                      (Bare_Source, dict(kind="dataSource", inT="NoDataType", outT="TData", created=[], params=["v"])),
+                      (Bare_Sink, dict(kind="dataSink", inT="TData", outT="TData", created=[], params=["path"])),
+                      (Bare_PSource, dict(kind="payloadSource", inT="NoDataType", outT="TData", created=["pk16"], params=["v"])),
+                      (Bare_PSink, dict(kind="payloadSink", inT="TData", outT="TData", created=[], params=["path"]))):
+        assert cls.__doc__ is None
+        cls.__module__ = __name__
+        cls.__qualname__ = cls.__name__
+        g[cls.__name__] = cls
+        FAMILY[cls.__name__] = desc
+
+
 _build()
+_build_bare()
 
 
 def register() -> None:
